@@ -89,6 +89,7 @@ def run(P, rep, tier):
     R = ReaderRoles(P)
     rep.analysed(*R.funcs)
     H = ReaderHarness(P, R, havoc=True, unknown_iters=(0, 1, 2) if tier == 'quick' else (0, 1, 2, 3))
+    H.record_compares = True
     paths, exceeded = H.paths([Script('diffx', options='unknown')])
     if exceeded:
         raise AnalysisError('path budget exceeded on the header function')
@@ -275,6 +276,12 @@ def run(P, rep, tier):
     from sa.props.c08 import ctor_rule
     ctor_rule(P, rep, r2)
     rep.floor(r2, 8)
+
+    # ---- R5: no length-dependent acceptance ---------------------------------------------------
+    r5 = rep.rule('C11-R5', 'no test on the length of the header line (or of a piece of it) decides acceptance: the grammar bounds no length',
+                  reference=1)
+    from sa.props.common import length_guard_rule
+    length_guard_rule(P, rep, r5, paths=paths, R=R)
 
     # ---- R4: acceptance depends on the line only -----------------------------------------
     r4 = rep.rule('C11-R4', 'header parsing keeps no state in module/class-level containers (what is accepted depends on the line, '
